@@ -635,7 +635,8 @@ def check_if_edge_pixel(mask_2d: np.ndarray, y: int, x: int) -> bool:
     Checks if an input [y,x] pixel on the input `mask` is an edge-pixel.
 
     An edge pixel is defined as a pixel on the mask which is unmasked (has a `False`) value and at least 1 of its 8
-    direct neighbors is masked (is `True`).
+    direct neighbors is masked (is `True`). Neighbors beyond the edge of the array count as masked, so an unmasked
+    pixel on the outer row / column of the array is always an edge pixel.
 
     Parameters
     ----------
@@ -651,6 +652,9 @@ def check_if_edge_pixel(mask_2d: np.ndarray, y: int, x: int) -> bool:
     bool
         If `True` the pixel on the mask is an edge pixel, else a `False` is returned because it is not.
     """
+
+    if y == 0 or x == 0 or y == mask_2d.shape[0] - 1 or x == mask_2d.shape[1] - 1:
+        return True
 
     if (
         mask_2d[y + 1, x]
@@ -688,8 +692,8 @@ def total_edge_pixels_from(mask_2d: np.ndarray) -> int:
 
     edge_pixel_total = 0
 
-    for y in range(1, mask_2d.shape[0] - 1):
-        for x in range(1, mask_2d.shape[1] - 1):
+    for y in range(mask_2d.shape[0]):
+        for x in range(mask_2d.shape[1]):
             if not mask_2d[y, x]:
                 if check_if_edge_pixel(mask_2d=mask_2d, y=y, x=x):
                     edge_pixel_total += 1
@@ -740,19 +744,10 @@ def edge_1d_indexes_from(mask_2d: np.ndarray) -> np.ndarray:
     edge_index = 0
     regular_index = 0
 
-    for y in range(1, mask_2d.shape[0] - 1):
-        for x in range(1, mask_2d.shape[1] - 1):
+    for y in range(mask_2d.shape[0]):
+        for x in range(mask_2d.shape[1]):
             if not mask_2d[y, x]:
-                if (
-                    mask_2d[y + 1, x]
-                    or mask_2d[y - 1, x]
-                    or mask_2d[y, x + 1]
-                    or mask_2d[y, x - 1]
-                    or mask_2d[y + 1, x + 1]
-                    or mask_2d[y + 1, x - 1]
-                    or mask_2d[y - 1, x + 1]
-                    or mask_2d[y - 1, x - 1]
-                ):
+                if check_if_edge_pixel(mask_2d=mask_2d, y=y, x=x):
                     edge_pixels[edge_index] = regular_index
                     edge_index += 1
 
